@@ -584,18 +584,32 @@ def all_targets():
 PINNED = os.path.join(os.path.dirname(os.path.abspath(__file__)), 'pinned')
 
 
-def regenerate_all(only=None, pin=False):
+FAILED = {}          # file stem -> message of the translator failure of the last `regenerate_all` (the file on disk was kept)
+
+
+def regenerate_all(only=None, pin=False, tolerate=False):
     """rewrite lean/OnlVerif/Generated/*.lean from the current source (atomically, and only the files whose text
     changed, so an unchanged source costs no rebuild); returns the list of files that changed.  `only`: file stems
-    (e.g. `('Port',)`) to restrict the run to - a check regenerates the files its own theorems are about.
+    (e.g. `('Port',)`) to restrict the run to - a check regenerates the files its own theorems are about (`py2lean/SCOPE.md`).
     `pin=True` also stores the text under `py2lean/pinned/` (the translation of the pinned tree, for `diff_vs_pinned`).
-    Raises `Unsupported` if the source left the translatable subset."""
+    A target whose source left the translatable subset keeps its previous file and does not stop the others; when all
+    targets have been tried, `Unsupported` is raised with the messages of the failed ones (unless `tolerate`: the
+    failures are then only recorded in `FAILED`)."""
     changed = []
+    FAILED.clear()
     for rel, gen in all_targets().items():
         stem = os.path.splitext(os.path.basename(rel))[0]
         if only is not None and stem not in only:
             continue
-        text = gen()
+        try:
+            text = gen()
+        except Unsupported as x:
+            FAILED[stem] = str(x)
+            continue
+        except (SyntaxError, AttributeError, IndexError, KeyError, TypeError, ValueError, OSError) as x:
+            # a source that no longer parses / has lost the class or method the generator reaches for
+            FAILED[stem] = f'py2lean: {stem}: {x!r}'
+            continue
         path = os.path.join(LEAN, rel)
         old = open(path).read() if os.path.exists(path) else None
         if old != text:
@@ -609,6 +623,8 @@ def regenerate_all(only=None, pin=False):
             os.makedirs(PINNED, exist_ok=True)
             with open(os.path.join(PINNED, stem + '.lean'), 'w') as f:
                 f.write(text)
+    if FAILED and not tolerate:
+        raise Unsupported(' ;; '.join(f'[{k}] {v}' for k, v in FAILED.items()))
     return changed
 
 
